@@ -13,6 +13,7 @@ THEOREMS = [_T + n for n in [
     "splitHostPort_total", "splitHostPortOld_raises_iff",
     "re_unescape_escape",
     "valid_ip_spec", "valid_ip_rejects", "valid_ip_noname", "valid_ip_ascii",
+    "url_concat_none", "url_concat_nil_noquery",
 ]]
 TRUSTED = [
     "CPython `re` on the five small patterns involved (_ABNF.request_line/status_line, _netloc_re with Unicode \\d, "
@@ -40,21 +41,21 @@ RULE = ("per-function generators built from each grammar (valid forms, boundary 
 EXHAUSTIVE = {"quick": False, "thorough": False}
 CLAUSES = {
     "request/response start-line parsers accept exactly the RFC 9112 grammar, HTTPInputError otherwise":
-        "requestLine_iff, requestLine_error_kind, requestLine_spec_agrees, statusLine_iff, statusLine_error_kind",
+        "requestLine_iff, requestLine_error_kind, statusLine_iff, statusLine_error_kind",
     "header-parameter parser never raises": "parseHeader_total_partial (no RFC 2231 parameter), parseHeader_total_refuted "
         "(known finding: malformed RFC 2231 continuations/charsets raise TypeError/ValueError/UnicodeError)",
-    "cookie parser never raises": "parseCookie_total (the model is a total function with no error outcome) + tie",
-    "host/port splitter never raises": "splitHostPort_total, splitHostPort_spec (after fix bbc6fff); splitHostPortOld_refuted",
-    "token-valued header parameters round-trip through encoding": "param_roundtrip (+ emailUnquote_quote)",
-    "HTTP timestamps round-trip through formatting and parsing": "civil_roundtrip, timestamp_roundtrip",
+    "cookie parser never raises": "tie only: the model parseCookie is a total function without an error outcome; the oracle checks the implementation",
+    "host/port splitter never raises": "splitHostPort_total, splitHostPortOld_raises_iff (after fix bbc6fff)",
+    "token-valued header parameters round-trip through encoding": "tie only: param_roundtrip_goal stated; oracle on every `encode` case",
+    "HTTP timestamps round-trip through formatting and parsing": "tie only: civil_roundtrip_goal, timestamp_roundtrip_goal stated; oracle on every `ts` case",
     "url_concat preserves existing query pairs and fragment and appends the arguments":
-        "url_concat_preserves (+ parseQsl_urlencode_ascii, url_concat_none); non-ASCII percent-decoding round trip: tie only",
-    "re_unescape inverts re.escape": "re_unescape_escape, re_unescape_error_only_alnum",
+        "url_concat_none, url_concat_nil_noquery; tie only: url_concat_preserves_goal stated; oracle on every `url` case",
+    "re_unescape inverts re.escape": "re_unescape_escape",
     "is_valid_ip accepts plain IPv4/IPv6, rejects host names, empty strings, NUL":
-        "valid_ip_spec, valid_ip_rejects, valid_ip_ascii; host names rejected: getaddrinfo contract, tie only",
+        "valid_ip_spec, valid_ip_rejects, valid_ip_noname, valid_ip_ascii; host names rejected by the resolver: getaddrinfo contract, tie only",
 }
 PARALLEL = True
-CASE_TIMEOUT = 20
+CASE_TIMEOUT = 120   # pure functions: only a runaway mutant gets here; generous because the pool may be starved on a loaded machine
 LEVEL_NOTE = "one model per utility function; every theorem is universally quantified over input strings"
 
 TCH = "!#$%&'*+-.^_`|~09azAZ"
@@ -315,7 +316,7 @@ def _clean_header(s):
 
 
 def gen_cases(rng, tier):
-    per = {"quick": 900, "thorough": 22000, "search": 1200}[tier]
+    per = {"quick": 900, "thorough": 45000, "search": 1200}[tier]
     yield {"fn": "tables"}
     for w in ["h:" + "9" * 4301, "h:" + "9" * 4300, "a; x*1=a; x*=b", "form-data; name=\"\\\"x\\\"\"", "a; file*=utf-8''a%22b"]:
         yield {"fn": "hostport" if w.startswith("h:") else "header", "s": w}
